@@ -198,6 +198,60 @@ def rep_map(args):
     return json.dumps(out, sort_keys=True, default=str)
 
 
+def mon_pm_eq(args):
+    x, o = args["self"], args["other"]
+    r = x.__eq__(o)
+    if not isinstance(o, SourceMapPositionMark):
+        return None if r is False else f"__eq__ with a non-mark returned {r!r}"
+    want = all(getattr(x, f) == getattr(o, f) for f in PM_FIELDS)
+    return None if r is want else f"__eq__ returned {r!r}, field-wise equality is {want!r}"
+
+
+def g_pm_pair(rng):
+    a = g_pm(rng)
+    k = rng.randint(0, 11)
+    if k == 10:
+        return {"self": a, "other": rng.choice([None, 3, "x", pm_view(a)])}
+    b = SourceMapPositionMark(*[getattr(a, f) for f in PM_FIELDS])
+    if k < 9:  # differ in exactly one field
+        f = PM_FIELDS[k]
+        setattr(b, f, (getattr(a, f) + "z") if f == "name" else getattr(a, f) + 1)
+    return {"self": a, "other": b}
+
+
+def mon_is_empty(args):
+    x = args["self"]
+    r = x.is_empty
+    return None if r is (len(x._mappings) == 0) else f"is_empty returned {r!r} for {len(x._mappings)} op entries"
+
+
+def g_maybe_empty_map(rng):
+    m = g_map(rng)
+    if rng.randint(0, 2) == 0:
+        m._mappings = {}
+    return {"self": m}
+
+
+def mon_add_macro_pm(args):
+    from explorerscript.source_map import SourceMapBuilder
+    b = args.get("self")
+    if not isinstance(b, SourceMapBuilder):
+        b = SourceMapBuilder()
+        for i in range(args.get("n_before", 0)):
+            b.add_macro_position_mark(None, f"m{i}", SourceMapPositionMark(i, 0, i, 1, "p", 0, 0, i, i))
+    before = list(b._pos_marks_macros)
+    r = b.add_macro_position_mark(args["if_incl_rel_path"], args["macro_name"], args["position_mark"])
+    if r is not b:
+        return "result is not self"
+    after = b._pos_marks_macros
+    if len(after) != len(before) + 1 or any(x is not y for x, y in zip(after, before)):
+        return "earlier macro position marks were not kept in place"
+    last = after[-1]
+    if not (isinstance(last, tuple) and len(last) == 3 and last[0] is args["if_incl_rel_path"] and last[1] is args["macro_name"] and last[2] is args["position_mark"]):
+        return f"last entry is {last!r}"
+    return None
+
+
 NATIVE = {
     SM + ":SourceMapPositionMark.serialize": {"gen": lambda r: {"self": g_pm(r)}, "monitor": mon_leaf_serialize(SourceMapPositionMark, PM_FIELDS), "repr": rep_map},
     SM + ":SourceMapPositionMark.deserialize": {"gen": lambda r: {"data_list": pm_view(g_pm(r))}, "monitor": mon_leaf_deserialize(SourceMapPositionMark, PM_FIELDS), "repr": rep_map},
@@ -207,4 +261,6 @@ NATIVE = {
     SM + ":MacroSourceMapping.deserialize": {"gen": lambda r: {"data_list": g_macro(r).serialize()}, "monitor": mon_leaf_deserialize(MacroSourceMapping, MM_FIELDS), "repr": rep_map},
     SM + ":SourceMap.rewrite_offsets": {"gen": lambda r: {"self": g_map(r), "new_mapping": g_offset_mapping(r)}, "monitor": mon_rewrite, "repr": rep_map},
     SM + ":SourceMap.serialize": {"gen": lambda r: {"self": g_map(r)}, "monitor": mon_roundtrip, "repr": rep_map},
+    SM + ":SourceMapPositionMark.__eq__": {"gen": g_pm_pair, "monitor": mon_pm_eq, "repr": rep_map},
+    SM + ":SourceMapBuilder.add_macro_position_mark": {"gen": lambda r: {"n_before": r.randint(0, 3), "if_incl_rel_path": r.choice([None, "a.exps"]), "macro_name": g_str(r), "position_mark": g_pm(r)}, "monitor": mon_add_macro_pm, "repr": rep_map},
 }
